@@ -25,8 +25,13 @@ def prop_module(pid: str):
 def analyse(pid: str, prog: Program, tier: str) -> Cx:
     cx = Cx(pid, prog, tier)
     prop_module(pid).run(cx)
+    from .types import SEED_DEPENDENTS
     for sp in cx.seed_problems:
-        cx.inconclusive('ENGINE', 'container seed table', sp)
+        rows = [r for r in getattr(cx.ti, 'bad_seed_rows', []) if f"{r[0]}.{r[1]}:" in sp]
+        if any(pid in SEED_DEPENDENTS.get(r, []) for r in rows) or not rows:
+            cx.inconclusive('ENGINE', 'container seed table', sp)
+        else:
+            cx.note(f"(not relevant to {pid}) {sp}")
     return cx
 
 
@@ -161,6 +166,12 @@ def run(a, replay_key=None) -> int:
         _evidence_on_error(pid, a, mod, str(e), t0)
         return 2
     except Exception as e:
+        from .terms import TooManyRegions
+        if isinstance(e, TooManyRegions):
+            print(f"ANALYSIS-INCONCLUSIVE property={pid} a guard comparison exceeded the region cap ({e}): the code at an anchor "
+                  f"has a shape outside the enumerated idioms")
+            _evidence_on_error(pid, a, mod, str(e), t0)
+            return 2
         print(f"ANALYSIS-ERROR property={pid} {type(e).__name__}: {e}")
         traceback.print_exc()
         _evidence_on_error(pid, a, mod, f"{type(e).__name__}: {e}", t0)
